@@ -60,6 +60,10 @@ def run(tier, seed):
         for f in ("\u00e0", "\u2020", "\u00a0x\u00a0", "\u00e9", "\U0001F4A0"):
             cases.append((base.replace("QZQ x QZQ", "QZQ " + f).encode("utf-8"), None, "%s:frag:U+%04X" % (slot, ord(f[0])), None))
     for x in EXTRA: cases.append((x.encode(), None, "extra", None))
+    # delimiter soup (every ordered pair of inline delimiters, three shapes); raw '<' '>' pairs are HTML pass-through by design in HTML-family members only
+    soup = docs.delimiter_soup()
+    for (k, a, b2, d) in (soup if tier == "thorough" else soup[::2]):
+        cases.append((d.encode(), None, "soup:%s:%s" % (a, b2), None))
     exe = build.build_harness("asan")
     fm = ["opml", "fodt", "itmz", "odt", "epub"]
     exts = [docs.STD, docs.STD | E["COMPLETE"], E["NOTES"]]
